@@ -36,6 +36,8 @@ func jobsFor(cfg *config) []*Job {
 			add("c18-value-t128", "t128", false, "c18", "", 120000, 400, 4)
 			add("c18-sync-focus-value", "t128", false, "c18", "sync", 40000, 400, 7)
 			add("c18-sync-focus-race", "t128", true, "c18", "sync", 4000, 400, 8)
+			add("c18-sync-focus-cold", "t128", false, "c18", "coldsync", 30000, 400, 9)
+			jobs[len(jobs)-1].PerProc = 1
 			add("c18-race-cold-t128", "t128", true, "c18", "cold", 6000, 400, 5)
 			add("c18-race-cold-t2", "t2", true, "c18", "cold", 3000, 300, 6)
 			jobs[len(jobs)-1].PerProc = 2
@@ -45,6 +47,8 @@ func jobsFor(cfg *config) []*Job {
 			add("c18-race-t2", "t2", true, "c18", "", 1500, 60, 2)
 			add("c18-value-t128", "t128", false, "c18", "", 8000, 60, 4)
 			add("c18-sync-focus-value", "t128", false, "c18", "sync", 2000, 60, 7)
+			add("c18-sync-focus-cold", "t128", false, "c18", "coldsync", 1600, 60, 9)
+			jobs[len(jobs)-1].PerProc = 1
 			add("c18-race-cold-t128", "t128", true, "c18", "cold", 400, 60, 5)
 			add("c18-race-cold-t2", "t2", true, "c18", "cold", 300, 60, 6)
 			jobs[len(jobs)-1].PerProc = 2
